@@ -24,15 +24,17 @@ Import ListNotations.
 (* Hypotheses (all decidable, computed by the tie for every generated program; Macros/MacroModel.v):
      wf_macros rk HM M:  for every definition d of the table
        (1) wf_def_ids    its identifiers are not spelled like generated names (no prefix "__")  [and carry d's origin tag]
-       (2) wf_def_noatt  no condition is ATTACHED to a clause (`r(x) if c` — write `r(x), if c`)
-       (3) wf_def_bound  every identifier of the body occurs in a binding position of the body (argument of a clause,
-                         pattern of let / if let / for): it is a "bound" identifier in the sense of MACROS.MD
-       (4) wf_def_rank   it invokes only macros of smaller rank rk (no recursion; any acyclic table has such a rank)
-       (5) wf_head_def   the macros HM used in head position have no identifiers of their own and invoke only such macros
+       (2) wf_def_bound  every identifier of the body occurs in a binding position of the body (argument of a clause,
+                         pattern of let / if let / for, also in a condition attached to a clause): it is a "bound"
+                         identifier in the sense of MACROS.MD
+       (3) wf_def_rank   it invokes only macros of smaller rank rk (no recursion; any acyclic table has such a rank)
+       (4) wf_head_def   the macros HM used in head position have no identifiers of their own and invoke only such macros
      wf_rule HM r:  the rule's identifiers are call-site identifiers not spelled like generated names, no `$p` in the rule,
                     head invocations are in HM.
-   Each of (1), (2), (3), (5) is NECESSARY: see the c08_hygiene_refuted_* theorems below (faithful model; every witness is
-   replayed against the real macro by the tie, corpus/C08.jsonl). *)
+   Each of (1), (2), (4) is NECESSARY: see the c08_hygiene_refuted_* theorems below (faithful model; every witness is
+   replayed against the real macro by the tie, corpus/C08.jsonl; known findings generated_name_collides_with_user_identifier
+   and unbound_macro_identifier_captured).  A former hypothesis "no condition attached to a clause of a macro body" is gone:
+   the renaming pass skipped attached conditions until fix 931a20f (c08_attached_condition_renamed below). *)
 Theorem c08_hygiene : forall M rk HM r r',
   wf_macros rk HM M = true -> wf_rule HM r = true -> expand_rule M r = OK r' ->
   exists h phi, hexpand_rule M r = OK h /\ hygienic_image r' h phi.
@@ -71,44 +73,48 @@ Proof. exact recursive_rejected. Qed.
 
 (* ... and when the invocations are statically well-formed (defined macros, right number and kinds of actuals: [table_ok],
    [rule_ok]) the result is exactly the dedicated error.  [expand_rule] is a total function (structural recursion on the
-   depth budget 100): it never "expands forever".  The COST of the rejection is not modelled: see known finding
-   recursive_macro_exponential_expansion (2^100 steps for a macro that invokes itself twice in head position). *)
+   depth budget 100): it never "expands forever".  The COST of the rejection is not modelled; the tie checks that the real
+   macro comes back within seconds on the two witnesses that took 2^100 / 2^50 steps before fix 815514e. *)
 Theorem c08_recursive_error : forall M HM r, table_ok HM M = true -> rule_ok HM M r = true ->
   (exists m, In m (invs_items (rbody r) ++ flat_map hinvs (rheads r)) /\ diverges M m) ->
   expand_rule M r = Err ERecursive.
 Proof. intros M HM r HT HR HB. exact (recursive_error M HM HT r HR HB). Qed.
 
 (* ---- where the code is not hygienic (the model is faithful to it): each hypothesis of c08_hygiene is necessary *)
-Theorem c08_hygiene_refuted_attached_condition :
-  forallb wf_def_ids M_att = true /\ forallb wf_def_bound M_att = true /\ forallb (wf_def_rank (fun m => m)) M_att = true
-  /\ forallb (wf_head_def []) M_att = true /\ wf_rule [] r_att = true /\ not_hygienic M_att r_att.
-Proof. exact refuted_attached_condition. Qed.
 Theorem c08_hygiene_refuted_generated_name : wf_macros (fun m => m) [] M_gen = true /\ not_hygienic M_gen r_gen.
 Proof. exact refuted_generated_name_collision. Qed.
 Theorem c08_hygiene_refuted_renamed_twice :
-  forallb wf_def_noatt M_twice = true /\ forallb wf_def_bound M_twice = true /\ forallb (wf_def_rank (fun m => m)) M_twice = true
+  forallb wf_def_bound M_twice = true /\ forallb (wf_def_rank (fun m => m)) M_twice = true
   /\ wf_rule [] r_twice = true /\ not_hygienic M_twice r_twice.
 Proof. exact refuted_renamed_twice. Qed.
 Theorem c08_hygiene_refuted_head_identifier : forallb (wf_def (fun m => m)) M_head = true /\ wf_rule [0] r_head = true /\ not_hygienic M_head r_head.
 Proof. exact refuted_head_identifier_captured. Qed.
 Theorem c08_hygiene_refuted_unbound_identifier :
-  forallb wf_def_ids M_free = true /\ forallb wf_def_noatt M_free = true /\ forallb (wf_def_rank (fun m => m)) M_free = true
+  forallb wf_def_ids M_free = true /\ forallb (wf_def_rank (fun m => m)) M_free = true
   /\ forallb (wf_head_def []) M_free = true /\ wf_rule [] r_free = true /\ not_hygienic M_free r_free.
 Proof. exact refuted_unbound_identifier_captured. Qed.
 
 (* ---- the hypotheses are satisfiable on a non-trivial table: nested macros, one macro invoked twice in a rule and once more
    inside another macro, the spelling z used at the call site, in the outer and in the inner macro, an invocation inside a
-   disjunction, nested head macros *)
+   disjunction, a condition attached to a clause of a macro body, nested head macros *)
 Example c08_hypotheses_satisfiable : wf_macros (fun m => m) [2; 3] M_ex = true /\ wf_rule [2; 3] r_ex = true
-  /\ exists r', expand_rule M_ex r_ex = OK r' /\ List.length (ids_rule r') = 26.
+  /\ exists r', expand_rule M_ex r_ex = OK r' /\ List.length (ids_rule r') = 36.
 Proof. exact example_wf. Qed.
+(* the witness of the fixed finding attached_condition_not_renamed: the attached condition is renamed with its clause *)
+Example c08_attached_condition_renamed :
+  wf_macros (fun m => m) [] M_att = true /\ wf_rule [] r_att = true
+  /\ expand_rule M_att r_att =
+      OK (mkRule [HClause 3 [TV (cs "a"); TV (cs "y")]]
+                 [IClause 2 [TV (cs "y")] []; IClause 1 [TV (cs "a")] [];
+                  IClause 0 [TV (cs "a"); TV (VId (mkId "__y_" (OMac 0) 0))] [CIf 0 [cs "a"; VId (mkId "__y_" (OMac 0) 0)]]]).
+Proof. exact attached_condition_renamed. Qed.
 (* a recursive table on which c08_recursive_error applies (mutual recursion reached through a third macro) *)
 Example c08_recursive_example : table_ok [] M_rec = true /\ rule_ok [] M_rec r_rec = true /\ expand_rule M_rec r_rec = Err ERecursive.
 Proof. vm_compute. auto. Qed.
 
 Print Assumptions c08_hygiene. Print Assumptions c08_two_invocations_disjoint. Print Assumptions c08_no_capture.
 Print Assumptions c08_recursive_rejected. Print Assumptions c08_recursive_error.
-Print Assumptions c08_hygiene_refuted_attached_condition. Print Assumptions c08_hygiene_refuted_generated_name.
+Print Assumptions c08_hygiene_refuted_generated_name. Print Assumptions c08_attached_condition_renamed.
 Print Assumptions c08_hygiene_refuted_renamed_twice. Print Assumptions c08_hygiene_refuted_head_identifier.
 Print Assumptions c08_hygiene_refuted_unbound_identifier.
 Print Assumptions c08_hypotheses_satisfiable. Print Assumptions c08_recursive_example.
